@@ -287,10 +287,104 @@ theorem wf_mkValue {v : PyVal} {dt : Option Dt} {l : Lit} (h : mkValue v dt = so
   | bytes b => simp [mkValue] at h
   | _ => all_goals (simp only [mkValue] at h; exact wf_mkPy rfl rfl h)
 
+theorem isWsDt_conv {d : Dt} (h : (some d == some Dt.normalizedString || some d == some Dt.token) = true) :
+    d.conv = .none := by
+  cases d <;> simp at h <;> rfl
+
+/-- re-typing / copying an existing well-formed literal gives a well-formed literal -/
+theorem wf_mkFromLit {old : Lit} (dt : Option Dt) (hw : WF old) : WF (mkFromLit old dt) := by
+  cases dt with
+  | some d =>
+    simp only [mkFromLit, fixWs]
+    by_cases hws : (some d == some Dt.normalizedString || some d == some Dt.token) = true
+    · -- white-space datatype: the converter returns the string, replaced by the processed form
+      have hcv := isWsDt_conv hws
+      have hc : castLex (some d) old.lex = some (.str old.lex) := by simp [castLex, hcv]
+      simp only [hws, if_true, hc]
+      refine ⟨(by intro b hb; cases hb), ?_, (by intro v _ _ _; rfl)⟩
+      intro s hs
+      cases hs
+      exact ⟨by simp [castLex, hcv], postProcess_idem _ _⟩
+    · simp only [hws, Bool.false_eq_true, if_false]
+      have hpp : ∀ t, postProcess (some d) t = t := by
+        intro t; cases d <;> first | rfl | (simp at hws)
+      refine ⟨?_, ?_, (by intro v _ _ _; rfl)⟩
+      · intro b hb
+        obtain ⟨h1, h2⟩ := castLex_bytes (show castLex (some d) old.lex = some (.bytes b) from hb)
+        exact ⟨h1, unhexlify_lt h2⟩
+      · intro s hs
+        have hs' : castLex (some d) old.lex = some (.str s) := hs
+        obtain ⟨h1, _⟩ := castLex_str hs'
+        subst h1
+        exact ⟨hs', hpp _⟩
+  | none =>
+    simp only [mkFromLit, fixWs]
+    by_cases hws : (old.dt == some Dt.normalizedString || old.dt == some Dt.token) = true
+    · simp only [hws, if_true]
+      have hdt : ∃ d, old.dt = some d ∧ d.conv = .none := by
+        cases hd : old.dt with
+        | none => rw [hd] at hws; simp at hws
+        | some d => rw [hd] at hws; exact ⟨d, rfl, isWsDt_conv hws⟩
+      obtain ⟨d, hd, hcv⟩ := hdt
+      refine ⟨?_, ?_, ?_⟩
+      · intro b hb
+        split at hb
+        · cases hb
+        · rename_i hne
+          obtain ⟨h1, _⟩ := hw.bytes b hb
+          rw [hd] at h1; cases h1; simp [Dt.conv] at hcv
+      · intro s hs
+        split at hs
+        · cases hs
+          rw [hd]
+          exact ⟨by simp [castLex, hcv], by rw [← hd]; exact postProcess_idem _ _⟩
+        · rename_i hne
+          exact absurd hs (by intro e; exact hne s e)
+      · intro v _ _ _; rw [hd]; rfl
+    · simp only [hws, Bool.false_eq_true, if_false]
+      have hpp : ∀ t, postProcess old.dt t = t := by
+        intro t
+        simp only [postProcess]
+        simp only [Bool.or_eq_true, not_or] at hws
+        simp [hws.1, hws.2]
+      exact ⟨hw.bytes, hw.str, hw.other⟩
+
 theorem wf_built {l : Lit} (h : Built l) : WF l := by
-  rcases h with ⟨dt, s, nz, h⟩ | ⟨v, h⟩
-  · exact wf_mkLex h
-  · exact wf_mkValue h
+  induction h with
+  | lex h => exact wf_mkLex h
+  | py h => exact wf_mkValue h
+  | fromLit dt _ ih => exact wf_mkFromLit dt ih
+
+/-- in the other two branches of `__new__` the late white-space assignment changes nothing -/
+theorem fixWs_mkLex {dt : Option Dt} {s : Str} {nz : Bool} {l : Lit} (h : mkLex dt s nz = some l) :
+    fixWs l.dt l.lex l.value = l.value := by
+  have hw := wf_mkLex h
+  unfold fixWs
+  split
+  · rename_i hws
+    split
+    · rename_i s' hv
+      obtain ⟨_, hpp⟩ := hw.str s' hv
+      -- the lexical form is the processed value string
+      simp only [mkLex] at h
+      split at h
+      · rename_i pv hc
+        split at h
+        · rename_i lx hlx
+          cases h
+          simp only at hv hws hpp ⊢
+          cases hv
+          simp only [pyLex] at hlx
+          cases hlx
+          rw [hpp]
+        · cases h
+      · rename_i hc
+        cases h
+        simp only at hv hws hpp ⊢
+        obtain ⟨h1, _⟩ := castLex_str hv
+        rw [hv, h1]
+    · rfl
+  · rfl
 
 /-- `mkLex … true` when the converter's value is known -/
 theorem mkLex_true_of {dt : Option Dt} {s lx : Str} {pv : PyVal} (hv : castLex dt (postProcess dt s) = some pv)
@@ -599,12 +693,12 @@ theorem string_value_of_built {l : Lit} (h : Built l) (hs : isStringDt l.dt = tr
     intro dt hdt t
     simp only [isStringDt, Bool.or_eq_true, beq_iff_eq] at hdt
     rcases hdt with h | h <;> subst h <;> rfl
-  rcases h with ⟨dt, s, nz, h⟩ | ⟨v, h⟩
-  · obtain ⟨_, _, hd⟩ := mkLex_fields h
+  induction h with
+  | @lex dt s nz l h =>
+    obtain ⟨_, _, hd⟩ := mkLex_fields h
     rw [hd] at hs
     cases nz with
     | false =>
-      have := denotes_mkLex_false h
       simp only [mkLex] at h
       have hc := hcl dt hs (postProcess dt s)
       rw [hc] at h
@@ -615,7 +709,8 @@ theorem string_value_of_built {l : Lit} (h : Built l) (hs : isStringDt l.dt = tr
       rw [mkLex_true_of hc rfl] at h
       cases h
       simp [hpp dt hs]
-  · cases v with
+  | @py v l h =>
+    cases v with
     | str s => rw [mkValue_str] at h; cases h; rfl
     | bytes b => simp [mkValue] at h
     | _ =>
@@ -623,5 +718,133 @@ theorem string_value_of_built {l : Lit} (h : Built l) (hs : isStringDt l.dt = tr
         simp only [mkValue] at h
         obtain ⟨lx, _, rfl⟩ := mkPy_fields h
         simp [coalesceDt, genericDt, isStringDt] at hs
+  | @fromLit old dt _ ih =>
+    cases dt with
+    | some d =>
+      simp only [mkFromLit] at hs ⊢
+      have hns : (some d == some Dt.normalizedString || some d == some Dt.token) = false := by
+        simp only [isStringDt, Bool.or_eq_true, beq_iff_eq] at hs
+        rcases hs with h | h
+        · cases h
+        · cases h; rfl
+      simp only [fixWs, hns, Bool.false_eq_true, if_false, hpp _ hs, hcl _ hs]
+    | none =>
+      simp only [mkFromLit] at hs ⊢
+      have hv := ih hs
+      have hns : (old.dt == some Dt.normalizedString || old.dt == some Dt.token) = false := by
+        simp only [isStringDt, Bool.or_eq_true, beq_iff_eq] at hs
+        rcases hs with h | h <;> rw [h] <;> rfl
+      simp only [fixWs, hns, Bool.false_eq_true, if_false, hpp _ hs, hv]
+
+/-- a re-typed literal's lexical form denotes its value — because of the late white-space assignment -/
+theorem denotes_mkFromLit_some (old : Lit) (d : Dt) : Denotes (mkFromLit old (some d)) := by
+  intro v hv
+  simp only [mkFromLit, fixWs] at hv ⊢
+  by_cases hws : (some d == some Dt.normalizedString || some d == some Dt.token) = true
+  · have hcv := isWsDt_conv hws
+    simp only [hws, if_true, castLex, hcv] at hv ⊢
+    exact hv
+  · simp only [hws, Bool.false_eq_true, if_false] at hv
+    have hpp : ∀ t, postProcess (some d) t = t := by
+      intro t; cases d <;> first | rfl | (simp at hws)
+    rw [hpp]; exact hv
+
+/-- copying a literal keeps "the lexical form denotes the value" -/
+theorem denotes_mkFromLit_none {old : Lit} (h : Denotes old) : Denotes (mkFromLit old none) := by
+  intro v hv
+  simp only [mkFromLit, fixWs] at hv ⊢
+  by_cases hws : (old.dt == some Dt.normalizedString || old.dt == some Dt.token) = true
+  · simp only [hws, if_true] at hv
+    have hdt : ∃ d, old.dt = some d ∧ d.conv = .none := by
+      cases hd : old.dt with
+      | none => rw [hd] at hws; simp at hws
+      | some d => rw [hd] at hws; exact ⟨d, rfl, isWsDt_conv hws⟩
+    obtain ⟨d, hd, hcv⟩ := hdt
+    split at hv
+    · cases hv; rw [hd]; simp [castLex, hcv]
+    · rename_i hne
+      -- a non-string value cannot be denoted under a string datatype
+      have := h v hv
+      rw [hd] at this
+      simp only [castLex, hcv] at this
+      cases this
+      exact absurd hv (hne _)
+  · simp only [hws, Bool.false_eq_true, if_false] at hv
+    have hpp : ∀ t, postProcess old.dt t = t := by
+      intro t
+      simp only [postProcess]
+      simp only [Bool.or_eq_true, not_or] at hws
+      simp [hws.1, hws.2]
+    rw [hpp]; exact h v hv
+
+
+/-- re-typing an existing literal = building from its lexical form with `normalize=False`, except that
+    `ill_typed` stays `None` -/
+theorem mkFromLit_some_eq_mkLex (old : Lit) (d : Dt) :
+    mkLex (some d) old.lex false = some { mkFromLit old (some d) with
+      ill := some (!wellFormed d (postProcess (some d) old.lex) (castLex (some d) (postProcess (some d) old.lex))) } := by
+  have hform : mkLex (some d) old.lex false = some ⟨postProcess (some d) old.lex, some d,
+      castLex (some d) (postProcess (some d) old.lex),
+      some (!wellFormed d (postProcess (some d) old.lex) (castLex (some d) (postProcess (some d) old.lex)))⟩ := by
+    simp only [mkLex]
+    split
+    · rename_i hf; simp at hf
+    · rfl
+  rw [hform]
+  simp only [mkFromLit, fixWs]
+  by_cases hws : (some d == some Dt.normalizedString || some d == some Dt.token) = true
+  · have hcv := isWsDt_conv hws
+    rw [if_pos hws]
+    simp only [castLex, hcv]
+  · have hpp : ∀ t, postProcess (some d) t = t := by
+      intro t; cases d <;> first | rfl | (simp at hws)
+    rw [if_neg hws]
+    simp only [hpp]
+
+
+theorem fixWs_idem (dt : Option Dt) (lx : Str) (v : Option PyVal) : fixWs dt lx (fixWs dt lx v) = fixWs dt lx v := by
+  unfold fixWs
+  split
+  · cases v with
+    | none => rfl
+    | some w => cases w <;> rfl
+  · rfl
+
+/-- literals the constructors produce are already white-space processed -/
+theorem processed_of_built {l : Lit} (h : Built l) :
+    postProcess l.dt l.lex = l.lex ∧ fixWs l.dt l.lex l.value = l.value := by
+  induction h with
+  | @lex dt s nz l h =>
+    refine ⟨?_, fixWs_mkLex h⟩
+    simp only [mkLex] at h
+    split at h
+    · split at h
+      · cases h; exact postProcess_idem _ _
+      · cases h
+    · cases h; exact postProcess_idem _ _
+  | @py v l h =>
+    cases v with
+    | str s =>
+      have h' : mkLex none s true = some l := h
+      refine ⟨?_, fixWs_mkLex h'⟩
+      rw [mkValue_str] at h; cases h; rfl
+    | bytes b => simp [mkValue] at h
+    | _ =>
+      all_goals
+        simp only [mkValue] at h
+        obtain ⟨lx, _, rfl⟩ := mkPy_fields h
+        exact ⟨postProcess_idem _ _, by simp [fixWs]⟩
+  | @fromLit old dt _ _ =>
+    cases dt with
+    | some d => exact ⟨postProcess_idem _ _, fixWs_idem _ _ _⟩
+    | none => exact ⟨postProcess_idem _ _, fixWs_idem _ _ _⟩
+
+theorem copy_same_of_built (old : Lit) (h : Built old) :
+    (mkFromLit old none).lex = old.lex ∧ (mkFromLit old none).dt = old.dt ∧
+      (mkFromLit old none).value = old.value := by
+  obtain ⟨h1, h2⟩ := processed_of_built h
+  refine ⟨h1, rfl, ?_⟩
+  simp only [mkFromLit]
+  rw [h1]; exact h2
 
 end RV.C09
